@@ -206,6 +206,7 @@ HARNESS_BEGIN
     __CPROVER_assume(in.outlen <= 32);
     g_ssl.outbuf = g_outbuf;
     g_alertDesc = in.callerAlertDesc;   /* the caller passes an uninitialised local */
+    g_error = PS_SUCCESS;               /* matrixSslDecode sets *error = PS_SUCCESS before dispatching */
     gh_flags_at_entry = g_ssl.flags;
     gh_hsstate_at_entry = g_ssl.hsState;
     vr_ret = matrixSslDecodeTls13(&g_ssl, &g_inp, &g_len, g_size, &g_remaining, &g_reqLen, &g_error, &g_alertLevel, &g_alertDesc);
